@@ -79,6 +79,14 @@ def check(repo, tier):
                 if cplx:
                     run.add(Finding('C08', 'D4', where, cons, f'{scen}: the eigenvectors of a micro pencil whose {" and ".join(cplx)} is complex are replaced by their real parts '
                                     f'(the stored core is then not an eigenvector of the pencil and the returned eigenvalue not the Rayleigh quotient of the returned tensor)', f_, ln, {'scenario': scen}))
+            # D3b: which eigenpair is selected must not depend on the scale of the operator: no absolute tolerance on (parts of) the micro eigenvalues
+            for e in sc.events('abs-tolerance-eig'):
+                if not l2rules.in_modules(e, mods):
+                    continue
+                where, cons, f_, ln = l2rules.ev_where(repo, e, mods)
+                run.oblige('D3', (where, cons, 'scale-free selection'), False)
+                run.add(Finding('C08', 'D3', where, cons, f'{scen}: {e["detail"]} -- for a large operator the wanted eigenvalue itself fails the test and another eigenpair is '
+                                f'returned from a maximal-rank guess', f_, ln, {'scenario': scen}))
             # option pass-through: every micro eigenproblem (both half sweeps) targets the caller's sigma -- the helper that solves it gets it, and the
             # shift-invert solver is called with it
             SIGMA = 1.5
